@@ -1,6 +1,7 @@
 """C04 Rational arithmetic is exact and RBig stays in lowest terms."""
 import json
 import os
+import shutil
 import re
 import framework as fw
 
@@ -177,13 +178,15 @@ def run(ctx):
 def selftest(ctx):
     """binding demonstration: corrupt one recorded result / one operand, the monitor must flag exactly that event"""
     drive = fw.build("std64", "c04")
-    tr = ctx.drive(drive, ["--seed", "5", "--n", "80", "--max-words", "3"], "trace.ndjson")
+    tr = ctx.drive(drive, ["--seed", "5", "--n", "250", "--max-words", "3"], "trace.ndjson")
     lines = open(tr).read().split("\n")
     ok = True
     # 1. a wrong numerator in one group of forms (value), 2. a common factor 3 planted in an RBig result (canonicity)
     idx = [i for i, l in enumerate(lines) if l and json.loads(l)["kind"] == "qq" and json.loads(l)["op"] in ("add", "mul")
            and all(o["out"]["k"] == "ok" and o["out"]["v"]["num"]["m"] for o in json.loads(l)["outs"])]
-    i1, i2 = idx[3], idx[7]
+    if len(idx) < 4:
+        raise fw.ToolError("selftest: not enough clean add/mul events in the sample trace")
+    i1, i2 = idx[1], idx[-1]
     e = json.loads(lines[i1])
     g = [o for o in e["outs"] if o["ty"] == "X"][0]
     m = g["out"]["v"]["num"]["m"]
@@ -207,4 +210,6 @@ def selftest(ctx):
     if got != want:
         ok = False
     print("SELFTEST %s: corrupted events %s -> monitor flagged %s" % ("PASS" if ok else "FAIL", want, got))
+    if ok:
+        shutil.rmtree(ctx.rundir, ignore_errors=True)
     return 0 if ok else 2
